@@ -6,7 +6,7 @@ import impl
 import polycorr
 
 ID = "C09"
-PROP_FILES = ["Props/C09.v"]
+PROP_FILES = ["Props/C09.v", "Props/R_reloc.v"]  # R_reloc: the byte-level relocation law on whole programs of the reference assembler
 RUN_FILES = ["Run/C09Run.v", "Run/PolyRun.v"]
 RULE = ("generated: programs of 3-40 statements inside D9 (double/single-operand instructions with every addressing mode incl. absolute @#e, "
         "immediate #e, index e(rN) / @e(rN), relative e, relative deferred @e; jmp/jsr; 15 branch mnemonics and sob to labels in and out of "
@@ -16,6 +16,12 @@ RULE = ("generated: programs of 3-40 statements inside D9 (double/single-operand
         "via a prepended '.link b' (even, mixed parity, near 0, near 0o177776 incl. wrap where a label >= 2^16 makes an absolute word fail). "
         "Also position-independent programs (own labels and '.' only through branches, sob and relative operands, no absolute reference) at "
         "triples with link bases where the addresses wrap through 0o177777: they must assemble at every base, to identical images. "
+        "In both streams the labels are declared in every form the assembler offers (about 2/3 of the programs export some): private 'lb:', some or all "
+        "'lb::', a '.extern all' / '.extern ALL' line at a random place (exports the labels before and after it), a '.extern lbI, lbJ' line at a random "
+        "place (before or after the definitions), or '::' on some and '.extern' naming others; and, when every label is exported, the text is "
+        "sometimes cut at a random line into two files linked one after the other (cross-file branches / relative / absolute references through "
+        "exported labels) -- exporting a label changes who sees it, never its value, so model, absolute words and image are those of the "
+        "one-file private-label program; these forms are crossed with all base triples incl. the wrapping ones. "
         "Also two linked files: a definitions file exporting constants (name == const) and labels (name::), and a main program that defines some "
         "of the same names as its own labels further down and uses every name before and after; by the scoping rule (own definition first, "
         "wherever it stands) exactly the references that resolve to labels move by delta. Also programs with 1-2 included files (impl.assemble fs=): ordinary includes, whose labels move with the main base, and overlays whose "
@@ -32,7 +38,10 @@ LEVEL_TEXT = ("Coq theorems (unbounded Z, programs of any length) about an execu
               "identical images. The model is hand-written and tied to the code on every run by correspondence (images and errors at three bases "
               "per program; LinearPolynomial through its internal API); opcode words are supplied by the harness as Fixed bytes (C01's subject).")
 LEVEL_NOTE = ("Conditional on both assemblies succeeding (an absolute word that no longer fits is value-out-of-bounds, observed and modelled). "
-              "D9 is the boolean predicate Model.Reloc.d9. Print Assumptions: closed under the global context for every theorem.")
+              "D9 is the boolean predicate Model.Reloc.d9. The model has one kind of label: that an exported label ('::', '.extern') has the same "
+              "value as a private one, and that two linked files give the image of their concatenation, is not proved but checked by "
+              "correspondence on every run (the generated programs in these forms are judged against the same model terms). "
+              "Print Assumptions: closed under the global context for every theorem.")
 TECHNIQUE = "Coq proof about hand-written executable models + model/implementation correspondence + metamorphic oracle on the real code judged in Coq"
 ASSUME = ["opcode words of the generated instructions are computed by the harness (checked against the implementation by the image comparison)",
           "Python ints are unbounded; % and // are floor operations"]
@@ -267,9 +276,37 @@ def gen_program(rng, allow_word, align_mods, base0=0, nst=None):
     return stmts, labpos
 
 
-def finish_program(rng, stmts, labpos, base0):
+EXPORT_MODES = ["none", "colon", "colon-all", "all", "named", "mixed"]
+
+
+def gen_export(rng):
+    """how the labels of a program are declared: privately (`lb:`) or exported in one of the ways the assembler offers"""
+    return "none" if rng.random() < 0.35 else rng.choice(EXPORT_MODES[1:])
+
+
+def finish_program(rng, stmts, labpos, base0, export="none"):
     """layout at base0 (aligns are only present when every base of the triple is congruent), choose branch targets,
-    and return (source body, coq items, by-construction absolute words)."""
+    and return (source body, coq items, by-construction absolute words).
+    export: the declaration form of the labels -- 'none' `lb:`; 'colon' some `lb::`; 'colon-all' every `lb::`; 'all' a
+    `.extern all` line somewhere (exports the labels before and after it); 'named' a `.extern lbI, lbJ` line somewhere
+    (before or after the definitions); 'mixed' some `lb::` and a `.extern` line naming some of the others.  Exporting a
+    label changes who may see it, never its value: the image and the model are the same in every mode."""
+    nl = len(labpos)
+    colon, ext_line = set(), {}
+    if export == "colon":
+        colon = {i for i in range(nl) if rng.random() < 0.6} or {rng.randrange(nl)}
+    elif export == "colon-all":
+        colon = set(range(nl))
+    elif export == "all":
+        ext_line[rng.randrange(len(stmts) + 1)] = "\t.extern " + rng.choice(["all", "all", "ALL", "All"])
+    elif export in ("named", "mixed"):
+        if export == "mixed":
+            colon = {i for i in range(nl) if rng.random() < 0.5}
+        named = [i for i in range(nl) if i not in colon and rng.random() < 0.7] or [i for i in range(nl) if i not in colon][:1]
+        rng.shuffle(named)
+        if named:
+            ext_line[rng.randrange(len(stmts) + 1)] = "\t.extern " + ", ".join("lb%d" % i for i in named)
+    colon_of = lambda i: "lb%d:%s" % (i, ":" if i in colon else "")
     pos, starts = 0, []
     for st in stmts:
         starts.append(pos)
@@ -285,9 +322,11 @@ def finish_program(rng, stmts, labpos, base0):
     items, aw, lines = [], [], []
     nfield = 0
     for k, st in enumerate(stmts):
+        if k in ext_line:
+            lines.append(ext_line[k])
         for i, lp in enumerate(labpos):
             if lp == k:
-                lines.append("lb%d:" % i)
+                lines.append(colon_of(i))
         here = starts[k]
         off = here
         if st.kind in ("br", "sob"):
@@ -345,10 +384,21 @@ def finish_program(rng, stmts, labpos, base0):
                 elif p[0] == "odd":
                     items.append("Odd")
         lines.append("\t" + text)
+    if len(stmts) in ext_line:
+        lines.append(ext_line[len(stmts)])
     for i, lp in enumerate(labpos):
         if lp == len(stmts):
-            lines.append("lb%d:" % i)
+            lines.append(colon_of(i))
     return "\n".join(lines) + "\n", "[" + "; ".join(items) + "]", aw, total, nfield
+
+
+def gen_split(rng, body, export):
+    """with every label exported the program may be cut at any line into two files linked one after the other (the second
+    continues at the address where the first ends): same image.  Returns the character offset of the cut, or None"""
+    if export != "colon-all" or rng.random() < 0.4:
+        return None
+    cuts = [i + 1 for i, ch in enumerate(body) if ch == "\n"]
+    return rng.choice([0] + cuts)
 
 
 def gen_bases(rng, total):
@@ -408,7 +458,8 @@ def make_case(rng):
         mods = rng.sample(mods, min(3, len(mods)))
     allow_word = same_parity or rng.random() < 0.2
     stmts, labpos = gen_program(rng, allow_word, (mods, same_parity), bases[0])
-    body, items, aw, total, nfield = finish_program(rng, stmts, labpos, bases[0])
+    export = gen_export(rng)
+    body, items, aw, total, nfield = finish_program(rng, stmts, labpos, bases[0], export)
     resv = any(st.kind == "resv" for st in stmts)
     bases = list(bases)
     neg = [rng.random() < 0.15 for _ in bases]
@@ -418,6 +469,7 @@ def make_case(rng):
         bases.append(bases[k])
         neg.append(not neg[k])
     return {"bases": bases, "body": body, "items": items, "aw": aw, "nfield": nfield, "total": total, "neg": neg,
+            "export": export, "split": gen_split(rng, body, export),
             "last": [(not resv) and rng.random() < 0.5 for _ in bases], "kinds": sorted({s.kind for s in stmts})}
 
 
@@ -427,7 +479,8 @@ def make_pic_case(rng):
     _PIC[0] = True
     try:
         stmts, labpos = gen_program(rng, False, [], 0, nst=rng.choice([5, 8, 12, 20, 30]))
-        body, items, aw, total, nfield = finish_program(rng, stmts, labpos, 0)
+        export = gen_export(rng)
+        body, items, aw, total, nfield = finish_program(rng, stmts, labpos, 0, export)
     finally:
         _PIC[0] = False
     assert not aw
@@ -436,17 +489,20 @@ def make_pic_case(rng):
     while len(bases) < 3:
         bases.append(65536 - total // 2 - len(bases))
     return {"bases": bases, "body": body, "items": items, "aw": aw, "nfield": nfield, "total": total, "pic": True,
+            "export": export, "split": gen_split(rng, body, export),
             "last": [rng.random() < 0.5 for _ in bases], "kinds": sorted({s.kind for s in stmts} | {"pic"})}
 
 
-def at_base(body, b, last=False, neg=False):
+def at_base(body, b, last=False, neg=False, split=None):
     """the transformation at_base b: `.link b` before the program -- or after it, where every address is
-    still a polynomial in the unknown base while the program is compiled"""
+    still a polynomial in the unknown base while the program is compiled.  split: cut the text there into two linked files"""
     # the same 16-bit base written as the negative number b - 2^16 (`.link -1000` is 177000)
     lit = ("-%o" % (65536 - b)) if (neg and b > 0) else "%o" % b
-    if last:
-        return [("t.mac", "%s\t.link %s\n" % (body, lit))]
-    return [("t.mac", ".link %s\n%s" % (lit, body))]
+    text = ("%s\t.link %s\n" % (body, lit)) if last else (".link %s\n%s" % (lit, body))
+    if split is None:
+        return [("t.mac", text)]
+    cut = split if last else split + len(text) - len(body)
+    return [("t.mac", text[:cut]), ("u.mac", text[cut:])]
 
 
 def obs_term(o):
@@ -482,7 +538,7 @@ def run_cases(rep, cases, tag):
     for c in cases:
         c.setdefault("neg", [False] * len(c["bases"]))
         for b, last, neg in zip(c["bases"], c["last"], c["neg"]):
-            jobs.append(((at_base(c["body"], b, last, neg),), {}))
+            jobs.append(((at_base(c["body"], b, last, neg, c.get("split")),), {}))
     outs = impl.pmap("assemble", jobs)
     terms = []
     at = 0
@@ -510,10 +566,13 @@ def run_cases(rep, cases, tag):
         for kd in c["kinds"]:
             rep.count("stmt:" + kd)
         rep.count("abs-words:%s" % ("0" if not c["aw"] else ("1-3" if len(c["aw"]) <= 3 else "4+")))
+        rep.count("labels-declared:%s%s%s" % (c.get("export", "none"), "+two-linked-files" if c.get("split") is not None else "",
+                                              "+wrapping-base" if any(b + c["total"] > 65536 for b in c["bases"]) else ""))
         if c["nfield"] and len(oks) >= 2:
             rep.nontrivial(c["body"])
         files = {"body": c["body"], "bases": c["bases"], "link_last": c["last"], "base_written_negative": c["neg"],
-                 "files_at_first_base": at_base(c["body"], c["bases"][0], c["last"][0], c["neg"][0])}
+                 "split": c.get("split"), "labels_declared": c.get("export", "none"), "pic": bool(c.get("pic")),
+                 "files_at_first_base": at_base(c["body"], c["bases"][0], c["last"][0], c["neg"][0], c.get("split"))}
         obs = [{"base": b, "outcome": o["outcome"], "code": o.get("code"),
                 "errors": sorted({d[1] for d in o["diags"] if d[0] != "warning"}), "crash": o.get("crash")} for b, o in zip(c["bases"], c["outs"])]
         if any(o["outcome"] in ("crash", "hang", "harness-error") for o in c["outs"]):
@@ -788,7 +847,7 @@ def explore(rep, br, tier, seed):
 def search(rep, br, tier, seed):
     rng = random.Random(seed + 9000011)
     sub = C.Report(ID, tier, seed)
-    cases = [make_case(rng) for _ in range(900 if tier == "quick" else 3000)]
+    cases = [make_case(rng) for _ in range(900 if tier == "quick" else 3000)] + [make_pic_case(rng) for _ in range(200)]
     run_cases(sub, cases, "_search")
     run_inc_cases(sub, [make_inc_case(rng) for _ in range(300)] + [make_shadow_case(rng) for _ in range(200)], "_search_inc")
     rep.violations += sub.violations
@@ -819,7 +878,7 @@ def replay(data):
     res = []
     n = len(inp["bases"])
     for b, last, neg in zip(inp["bases"], inp.get("link_last", [False] * n), inp.get("base_written_negative", [False] * n)):
-        o = impl.assemble(at_base(inp["body"], b, last, neg))
+        o = impl.assemble(at_base(inp["body"], b, last, neg, inp.get("split")))
         print("base %o:" % b, o["outcome"], o.get("code"), sorted({d[1] for d in o["diags"] if d[0] != "warning"}))
         res.append((b, o))
     oks = [(b, list(bytes.fromhex(o["code"]))) for b, o in res if o["outcome"] == "ok"]
@@ -827,6 +886,8 @@ def replay(data):
     for x in range(len(oks)):
         for y in range(x + 1, len(oks)):
             bad = bad or py_law(aw, oks[x][0], oks[x][1], oks[y][0], oks[y][1])
+    if inp.get("pic") and len(oks) < len(res):
+        bad = bad or "position-independent program rejected at some base"
     if bad:
         print("law broken:", bad)
     return bad is None and not any(o["outcome"] in ("crash", "hang") for _, o in res)
